@@ -25,6 +25,7 @@ HASHSEED_IS_VIOLATION = False
 
 TIERS = {
     'quick': {'runs': 24000, 'replica_runs': 400, 'hash_seeds': [1, 4242], 'timeout_s': 1200, 'step_budget': 60_000_000,
+              'stall_s': 240,
               'shrink_s': 40},
     'thorough': {'runs': 120000, 'replica_runs': 1600, 'hash_seeds': [1, 7, 99, 4242, 31337, 2**31],
                  'step_budget': 800_000_000, 'stall_s': 400,
